@@ -5,7 +5,7 @@ every path of every public operation, with the history closure U* (requests
 left unsynced by *any* sequence of earlier API calls).
 """
 from ..interp import Program, Interp, short
-from ..flow import FlowDomain, persistent
+from ..flow import FlowDomain, persistent, phase_rule
 from ..facts import AnalysisError
 from .. import api
 
@@ -23,6 +23,7 @@ RULES = {
     'C04.O6': 'a cached slice write is polled only after the zeroing of its new cluster completed',
     'C04.O7': 'at W(L2)/W(L1): no copy-on-write data write is unsynced',
     'C02.5': 'a cached slice is written only by a function that resolved the new-cluster state of its host cluster',
+    'C04.L': 'refcount phase precedes the mapping phase in every pass of a flush loop',
 }
 
 
@@ -52,8 +53,9 @@ def closure_cached(f, faults=False):
                 return pickle.load(fh)
         except Exception:
             pass
-    d, ip, ustar, exits = closure(f, faults)
+    d, ip, ustar, exits, api_viol = closure(f, faults)
     snap = Snapshot()
+    d.viol.update(api_viol)
     snap.viol = d.viol
     snap.viol_sites = d.viol_sites
     snap.obl = d.obl
@@ -64,6 +66,7 @@ def closure_cached(f, faults=False):
     snap.assumed_dead = getattr(d, 'assumed_dead', False)
     snap.extra = getattr(d, 'extra', {})
     snap.classes_seen = set(d.classes_seen)
+    snap.phase = phase_rule(f) if not faults else []
     snap.ustar = ustar
     snap.exits = exits
     snap.units = len(ip.units_seen)
@@ -97,6 +100,7 @@ def closure(f, faults=False):
     ip = Interp(P, d)
     ustar = frozenset()
     exits = {}
+    exits_full = {}
     for _round in range(10):
         new = set(ustar)
         for op in OPS:
@@ -107,6 +111,7 @@ def closure(f, faults=False):
                 if tag is not None and tag.startswith('err'):
                     continue     # crash model: operations complete (fault sequences are C17)
                 for t in toks:
+                    exits_full.setdefault(op, {}).setdefault(tag, set()).add(t)
                     # requests issued by a function that can only end in a certain
                     # self-deadlock (C07 finding) never leave the operation
                     pt = frozenset(x for x in persistent(t) if not (x[0] == 'U' and x[2] in d.hang_frames))
@@ -121,7 +126,50 @@ def closure(f, faults=False):
         raise AnalysisError('history closure did not converge')
     if ip.unresolved:
         raise AnalysisError('unresolved awaits: ' + '; '.join(ip.unresolved[:5]))
-    return d, ip, ustar, exits
+    # obligations on what an API call may leave behind when it returns Ok
+    api_viol = {}
+    for op, ex in exits_full.items():
+        for tag, toks in ex.items():
+            if tag is not None and tag.startswith('err'):
+                if faults:
+                    for t in toks:
+                        for x in t:
+                            if x[0] == 'VICTIMS':
+                                api_viol['C17.2:victims'] = {
+                                    'rule': 'C17.2', 'where': api.dev_method(f, op).where(0), 'chain': op,
+                                    'msg': 'dirty %s slices evicted from the cache are dropped unwritten when their '
+                                           'write-back (or the refcount flush before it) fails in %s: the evicted '
+                                           'entries are no longer in the cache, so no later flush_meta() can write '
+                                           'them' % (x[1], op)}
+                continue
+            for t in toks:
+                for x in t:
+                    if x[0] == 'MUT':
+                        api_viol['C02.1:%s:%s' % (op, x[1])] = {
+                            'rule': 'C02.1', 'where': api.dev_method(f, op).where(0), 'chain': op,
+                            'msg': '%s can return Ok after changing a cached %s slice without marking the cache '
+                                   'entry dirty: the change is never flushed' % (op, x[1])}
+                    if x[0] == 'VICTIMS':
+                        api_viol['C02.2:%s:%s' % (op, x[1])] = {
+                            'rule': 'C02.2', 'where': api.dev_method(f, op).where(0), 'chain': op,
+                            'msg': '%s can return Ok with dirty %s slices evicted from the cache but not written '
+                                   'back' % (op, x[1])}
+                    if x[0] == 'NEEDFLAG':
+                        api_viol['C18.1:%s' % x[1]] = {
+                            'rule': 'C18.1', 'where': api.dev_method(f, op).where(0), 'chain': op,
+                            'msg': 'metadata dirtied in %s is not followed by setting need_flush before %s returns'
+                                   % (x[1], op)}
+                    if x[0] == 'RAM' and op in ('flush_meta', 'shrink_caches'):
+                        api_viol['C02.3:%s:%s' % (op, x[1])] = {
+                            'rule': 'C02.3', 'where': api.dev_method(f, op).where(0), 'chain': op,
+                            'msg': '%s can return Ok while metadata of kind %s may still be dirty only in RAM '
+                                   '(the flush is not complete on every Ok path)' % (op, x[1])}
+                    if x[0] == 'U' and op == 'fsync_range':
+                        api_viol['C05.1:%s' % x[1]] = {
+                            'rule': 'C05.1', 'where': api.dev_method(f, op).where(0), 'chain': op,
+                            'msg': 'fsync_range can return Ok without a completed backend fsync (requests of class '
+                                   '%s stay unsynced)' % x[1]}
+    return d, ip, ustar, exits, api_viol
 
 
 def report(d, rep, rules):
@@ -135,6 +183,22 @@ def report(d, rep, rules):
             if sites:
                 msg += ' [dependent writes affected: %s]' % ', '.join(sites)
             rep.violation(v['rule'], key, v['where'], msg, {'path': v['chain'], 'events': sites})
+
+
+def phase(d, rep, rid):
+    rep.rule(rid, 'in every loop of a function that performs the complete refcount sweep and writes mapping tables, '
+                  'the sweep is inside the loop and dominates the mapping writes (refcount phase precedes the mapping '
+                  'phase in every pass)')
+    n = 0
+    for (fn, where, ok, detail) in d.phase:
+        n += 1
+        rep.ob(rid, 'loop@%s in %s' % (where, fn), ok, detail)
+        if not ok:
+            rep.violation(rid, '%s:%s' % (rid, fn), where,
+                          'in %s a pass of the flush loop writes mapping tables without performing the complete '
+                          'refcount sweep in the same pass: refcount changes made by another task while an earlier '
+                          'pass waited for I/O are not flushed before the mappings that depend on them (%s)' % (fn, detail))
+    rep.floor('loops with mapping writes examined', n, 1)
 
 
 def floors(d, rep):
@@ -192,4 +256,5 @@ def run(ctx, rep):
     n_ob = len([1 for (r, s) in d.obl if r.startswith('C04')])
     rep.floor('ordering obligations evaluated', n_ob, 10)
     report(d, rep, {k for k in RULES if k.startswith('C04')})
+    phase(d, rep, 'C04.L')
     rep.count('leaks (request classes some API call can leave unsynced)', len([x for x in d.ustar if x[0] == 'U']))
